@@ -42,7 +42,7 @@ func runC02(r *Run) {
 	specs = append(specs,
 		Spec{Name: "map-events-T256-K4", Kind: "map-small", T: 256, Keys: 4, Classes: []string{"t", "limM"}, Oracles: []string{"twin", "ev:commit1", "ev:creopen"}, Depth: evd},
 		Spec{Name: "map-of-maps-T256", Kind: "nested", T: 256, Keys: 2, Classes: []string{"t", "h", "M"}, Oracles: []string{"sem", "reopen", "events"},
-			Extra: map[string]int{"rootmap": 1, "lr": 2, "lc": 2, "maxc": 3, "depth": 2}},
+			Extra: map[string]int{"rootmap": 1, "lr": 2, "lc": 3, "maxc": 2, "depth": 2}},
 	)
 	r.ExploreSpecs(specs)
 	// multi-level trees with caller-placed digests: new smallest key, keys between any two
